@@ -27,7 +27,9 @@ RULE = ('S1: every assignment of a body from a generated menu (role leaves, '
 RULE += (
          ' The rule set reaches the enforcer as a ready-made Rules object'
          ' that names no default (the enforcer attaches its own); S5 also'
-         ' redefines the default rule.')
+         ' redefines the default rule.'
+         ' S4 reentrant: a custom check that enforces the same policy for'
+         ' the parent object, parent chains <= 3, seven rule shapes.')
 ASSUMPTIONS = ['generated body menu replaces random expressions',
                'reference model: R-store lookup + R-lang evaluation']
 
@@ -343,6 +345,16 @@ def _register():
             RECORD.append(('vrec34', self.match, None))
             return self.match.startswith('t')
 
+    class Up(_checks.Check):
+        # the usual "ask again for the parent object" check: re-enters
+        # enforce() for another target while the outer decision is in flight
+        def __call__(self, target, creds, enforcer, current_rule=None):
+            parent = target.get('parent')
+            if parent is None:
+                return False
+            return bool(enforcer.enforce(self.match, parent, creds))
+
+    _checks.register('vup', Up)
     _checks.register('vrec4', Rec4)
     _checks.register('vrec3', Rec3)
     _checks.register('vrec43', Rec43)
@@ -353,9 +365,62 @@ BODIES4 = ['L', 'not L', 'L and @', '! or L', 'not (L and @)',
            '@ and (! or not L)', '(L)', 'not not L']
 
 
+REENTRANT = [
+    # (rules, enforced name): 'need' of the target or of any ancestor
+    ({'p': 'role:%(need)s or vup:p'}, 'p'),
+    ({'p': 'rule:q', 'q': 'role:%(need)s or vup:p'}, 'p'),
+    ({'p': 'rule:q', 'q': 'rule:r', 'r': 'role:%(need)s or vup:p'}, 'p'),
+    ({'p': 'not rule:q', 'q': 'not (role:%(need)s or vup:p)'}, 'p'),
+    ({'p': 'rule:q or !', 'q': 'vup:p or role:%(need)s'}, 'p'),
+    ({'p': 'rule:q', 'q': 'role:%(need)s or vup:q'}, 'p'),
+    ({'p': 'rule:q and rule:q', 'q': 'role:%(need)s or vup:q'}, 'p'),
+]
+
+
+def run_reentrant(acc, enf):
+    """A custom check inside the referenced rule enforces again - the same
+    policy, another target - while the outer decision is still in flight.
+    The rule: graph stays acyclic and evaluation ends with the data (a
+    parent chain of depth <= 3).  Expected: the requirement of the target or
+    of any ancestor is met; and inlining the references changes nothing."""
+    for rules, name in REENTRANT:
+        world.set_rules(enf, rules)
+        for depth in range(0, 4):
+            for needs in itertools.product('ab', repeat=depth + 1):
+                target = None
+                for n in reversed(needs):
+                    target = {'need': n} if target is None else \
+                        {'need': n, 'parent': target}
+                # built inside-out: needs[0] is the outermost object
+                for roles in ROLESETS_AB:
+                    exp = any(n in roles for n in needs)
+                    acc.case('S4', depth > 0)
+                    acc.ev()
+                    got = world.decide(enf, name, target,
+                                       {'roles': list(roles)})
+                    if got != ('ok', exp):
+                        acc.violation(
+                            'S4|reentrant|%s' % ('allows' if got ==
+                                                 ('ok', True) else 'denies'
+                                                 if got[0] == 'ok' else
+                                                 got[1]),
+                            'rules %r, object chain with requirements %r, '
+                            'roles %r: got %r expected %r' %
+                            (rules, needs, roles, got, exp),
+                            {'rules': rules, 'enforce': name,
+                             'needs': list(needs), 'roles': list(roles)},
+                            exp, got, 'S4')
+                    acc.outcome('reentrant-%s' % exp)
+    acc.sample('S4', {'reentrant': REENTRANT[1][0]})
+
+
+ROLESETS_AB = [(), ('a',), ('b',), ('a', 'b')]
+
+
 def run_current_rule(acc):
     _register()
     enf = world.bare_enforcer()
+    run_reentrant(acc, enf)
     # parents are evaluated before the subclasses, and once more after them
     for kind in ('vrec4', 'vrec3', 'vrec43', 'vrec34', 'vrec4', 'vrec3'):
         for body in BODIES4:
